@@ -64,10 +64,11 @@ def main():
     ap.add_argument("--n", type=int, default=30)
     ap.add_argument("--seed", type=int, default=1)
     ap.add_argument("--props", default=",".join(f"C{i:02d}" for i in range(1, 21)))
-    ap.add_argument("--files", default="", help="substring filter on the file path (e.g. io/)")
+    ap.add_argument("--files", default="", help="comma-separated substring filters on the file path (e.g. io/,macros/)")
     a = ap.parse_args()
     props = a.props.split(",")
-    all_sites = [x for x in sites() if a.files in x[0]]
+    pats = [q for q in a.files.split(",") if q] or [""]
+    all_sites = [x for x in sites() if any(q in x[0] for q in pats)]
     rnd = random.Random(a.seed)
     rnd.shuffle(all_sites)
     outp = os.path.join(VERIF, ".build", "mutscore.jsonl")
